@@ -69,9 +69,8 @@ ASSUMPTIONS = ['node sets finite and monotone; unsorted node sets are counted, n
                'triangle sums) cannot be more accurate than that - valid for every amplitude 1e-12..1e12 and offset generated',
                'a window width that is not integer-valued (dt/(dt/k) a hair off k) is outside "window sizes 1..len": counted only',
                'interp2d: queries x and nodes xf as 1-d numpy arrays, lists or tuples of real numbers (docstring: array_like), '
-               'judged alike; the 2-d table f as numpy array. The table as a nested list / tuple is array_like too but raises '
-               'TypeError on the clean tree (f[index array]): generated, routed to the observation "pending-finding: interp2d '
-               'table f as nested list ..." until the coordinator rules; if a tree accepts it, it is judged like an array',
+               'judged alike; the 2-d table f as numpy array or as a nested list / tuple of rows (array_like too; raised '
+               'TypeError before fix F42 of eqsig), judged alike',
                'results depend on the arguments only: f(A); f(B); f(A) - the third result equals the first BIT-FOR-BIT (same '
                'argument objects, same process, deterministic NumPy kernels), also when f(B) raised or B was outside the domain, '
                'also for calls whose value the statement does not fix (dir = up / down, repeated nodes)',
@@ -357,18 +356,17 @@ def _interp2d_domain(x, xf, f):
 
 
 def _exc_interp2d(args, kwargs, e, st):
-    """The table as a nested list / tuple with everything else in domain: the clean tree indexes f with an index array
-    (TypeError). Routed to an observation until the coordinator rules (repair or recorded finding)."""
+    """The table as a nested list / tuple with everything else in domain: before fix F42 the library indexed the list with an
+    index array (TypeError); for a while that was routed to an observation, see below."""
     if st is None:
         return
     a = st[1]
     dom = _interp2d_domain(a['x'], a['xf'], a['f'])
     if dom is None:
         return
-    if isinstance(a['f'], (list, tuple)) and isinstance(e, TypeError) and _nodes_ok(_floats(dom[1])) \
-            and np.all(np.isfinite(dom[0])) and np.all(np.isfinite(dom[2])):
-        CTX.observe(PENDING_F_LIST)
-        _mark(e)
+    # ruled a genuine defect (the statement covers "all arguments in their documented domains", the docstring says array_like)
+    # and repaired in eqsig (fix F42): nothing is routed any more, the exception is judged like any other on in-domain input
+    return
 
 
 def check_interp2d(ctx, x, xf, f, result):
@@ -1422,7 +1420,7 @@ def drive_interp(ctx, eqsig, rng, n_cases):
             n_c = lt(nodes) if k in (1, 2) else nodes
             _interp_calls(ctx, eqsig, rng, q_c, n_c, f, int(rng.integers(3)))
         elif u < 0.135 and not repeated and ncls != 'decreasing-nodes':
-            # the table as a nested list / tuple of rows (raises TypeError on the clean tree: routed to 'pending-finding')
+            # the table as a nested list / tuple of rows (TypeError before fix F42)
             f_c = np.asarray(f).tolist() if rng.random() < 0.6 else tuple(tuple(r_) for r_ in np.asarray(f).tolist())
             _interp_calls(ctx, eqsig, rng, q, nodes, f_c, int(rng.integers(3)))
         if c % 6 == 0:
